@@ -957,10 +957,9 @@ impl Arena {
     let mut allocated = header.allocated.load(Ordering::Acquire);
 
     let want = loop {
-      let aligned_offset = align_offset::<T>(allocated);
       let size = mem::size_of::<T>() as u32;
-      let want = match aligned_offset
-        .checked_add(size)
+      let want = match checked_align_offset::<T>(allocated)
+        .and_then(|aligned_offset| aligned_offset.checked_add(size))
         .and_then(|w| w.checked_add(extra))
       {
         Some(want) if want <= self.cap => want,
@@ -1111,12 +1110,11 @@ impl Arena {
     let header = self.header();
     let mut allocated = header.allocated.load(Ordering::Acquire);
     let want = loop {
-      let align_offset = align_offset::<T>(allocated);
       let size = t_size as u32;
-      let want = align_offset + size;
-      if want > self.cap {
-        break size;
-      }
+      let want = match checked_align_offset::<T>(allocated).and_then(|offset| offset.checked_add(size)) {
+        Some(want) if want <= self.cap => want,
+        _ => break size,
+      };
 
       match header.allocated.compare_exchange_weak(
         allocated,
@@ -1598,8 +1596,11 @@ impl Arena {
       return false;
     }
 
-    let aligned_offset = align_offset::<AtomicU64>(offset) as usize;
-    let padding = aligned_offset - offset as usize;
+    // no room for a node behind an offset in the last bytes of a 4 GiB arena
+    let Some(aligned_offset) = checked_align_offset::<AtomicU64>(offset) else {
+      return false;
+    };
+    let padding = aligned_offset as usize - offset as usize;
     let segmented_node_size = padding + SEGMENT_NODE_SIZE;
     if segmented_node_size >= size as usize {
       return false;
@@ -1619,7 +1620,12 @@ impl Arena {
       return None;
     }
 
-    let aligned_offset = align_offset::<AtomicU64>(offset) as usize;
+    // no room for a node behind an offset in the last bytes of a 4 GiB arena
+    let Some(aligned_offset) = checked_align_offset::<AtomicU64>(offset) else {
+      self.increase_discarded(size);
+      return None;
+    };
+    let aligned_offset = aligned_offset as usize;
     let padding = aligned_offset - offset as usize;
     let segmented_node_size = padding + SEGMENT_NODE_SIZE;
     if segmented_node_size >= size as usize {
